@@ -2369,7 +2369,7 @@ class SFTPGlob:
         async for entry in self._scandir(path or b'.'):
             filename = cast(bytes, entry.filename)
 
-            if filename in (b'.', b'..'):
+            if filename in (b'.', b'..') or b'/' in filename:
                 continue
 
             if not pattern or fnmatch(filename, pattern):
